@@ -112,7 +112,10 @@ def cases(tier, seed):
         seen.add(key)
         nm.append({'id': '%s:near:%s:%s' % ('2d' if is2d else '3d', r, 'x'.join(map(str, bs))), 'dim': '2d' if is2d else '3d', 'rate_arg': r, 'bs_arg': bs,
                    'valid': None, 'spelling': 'near-miss', 'cost': 1})
-    return out + nm
+    out = out + nm
+    if tier == 'thorough':
+        out.append({'id': 'memcheck:boundary-rates', 'kind': 'memcheck', 'workload': 'boundary-rates', 'cost': 60})
+    return out
 
 
 def effective(rate_arg, bs_arg):
@@ -146,7 +149,28 @@ def on_crash(case, r):
              'detail': 'rate %r blockshape %r: worker died with %s\n%s' % (case['rate_arg'], case['bs_arg'], r['crash'], r.get('stderr', '')[-400:])}]
 
 
+
+def run_memcheck_case(case):
+    """thorough tier: the named bounded workload under valgrind memcheck, contracts off; only errors with a frame in libzfp/zfpy count."""
+    import os
+    from .. import memcheck
+    pin = os.environ.get('PYTHONPATH', '').split(os.pathsep)[0]
+    r = memcheck.run_workload(case['workload'], pin)
+    bad = []
+    if not r.get('done'):
+        return {'inconclusive': 'memcheck workload %s did not finish: rc=%s %s %s' % (case['workload'], r.get('rc'), r.get('stdout_tail'), r.get('stderr_tail')),
+                'counters': {'memcheck_runs': 1}}
+    for e in r['errors_in_codec'][:5]:
+        bad.append({'sig': 'memcheck:%s-in-codec' % e['kind'], 'detail': '%s: %s; frames %s' % (case['workload'], e['what'], e['frames'])})
+    if 'ACCEPTED-SUBMINIMUM' in r.get('stdout_tail', ''):
+        bad.append({'sig': 'memcheck:sub-minimum-rate-accepted', 'detail': r['stdout_tail']})
+    return {'violations': bad, 'counters': {'memcheck_runs': 1, 'memcheck_errors_total_any_frame': r['errors_total'], 'memcheck_errors_in_codec': len(r['errors_in_codec'])},
+            'strata': ['memcheck:' + case['workload']], 'key': case['id']}
+
+
 def run_case(case, ctx):
+    if case.get('kind') == 'memcheck':
+        return run_memcheck_case(case)
     from seismic_zfp.read import SgzReader
     sc = ctx['scratch']
     is2d = case['dim'] == '2d'
